@@ -4,6 +4,7 @@ for l in open('/verif/properties.jsonl'):
     p=json.loads(l)
     if p['id']==pid: break
 VARIANT = {
+ '11': 'one of your own choosing that you judge MOST LIKELY TO SLIP THROUGH a thorough property-based / fuzzing test suite written by someone who knows this property well (thousands of generated inputs, histories, schedules and faults per run against reference models and round-trip / differential oracles), and that depends on a CONJUNCTION: two or three conditions that are each ordinary and each well covered when testing, but that rarely occur TOGETHER in one generated case (a particular option or configuration value combined with a particular message kind or value class; a particular earlier step combined with a particular later one; a second object of another type existing at the same time; a feature switched on in the profile combined with a particular input) - neither condition alone may show the problem',
  '1': 'first one',
  '2': 'second one, different in kind from the most obvious one',
  '3': 'least obvious one you can make work: located in a different function or file than where one would look first (a helper, a caller, an initialisation or persistence path, a rarely used option or message kind), or needing a longer history / rarer input shape to show',
